@@ -448,3 +448,19 @@ def pipeflow_forwards(ctx):
                replay=lambda m, _k=k: {"handler": "pipeflow_kwargs", "input": {"key": "some_other_option" if _k == KAPPA else _k},
                                        "expected": "an option passed to pipeflow() reaches init_options unchanged, also when its value is None"})
     ctx.decided("same-net", "ensures", seen.get("net") is holder.get("net"), witness="init_options called on another object")
+
+
+# ---------------------------------------------------------------------------------------------
+# the resolved options are the ones APPLIED: every unknown of the bidirectional stage is tested against the tolerance option
+# of its own name (tol_m for mass flows, tol_p for pressures, tol_T for temperatures) -- shared with C05
+
+def _mk14(part):
+    @unit("C14", "applied_tolerances/bidirectional/%s" % part.replace(":", "-"), functions=["pandapipes.pipeflow:bidirectional"], engine="E1")
+    def _u(ctx):
+        from contracts.C05 import _stage
+        _stage(ctx, "bidirectional", "constant", part)
+
+
+import contracts.C05 as _C05  # noqa
+for _u_, _ in _C05.STAGE_UNKNOWNS["bidirectional"]:
+    _mk14("tol:" + _u_)
